@@ -95,6 +95,58 @@ def st_box(draw, dim):
     return a, b
 
 
+SCALES = [2.0 ** -30, 1e-9, 1e-6, 1e-3, 1e3, 2.0 ** 20]
+
+
+def st_boxscale(draw, dim, share=3):
+    """None (2 of `share` cases... the box stays as drawn) or one factor per dimension: the same problem in other units"""
+    if draw(st.integers(0, share - 1)) != 0:
+        return None
+    if draw(st.booleans()):
+        s = draw(st.sampled_from(SCALES))
+        return [s] * dim
+    return [draw(st.sampled_from(SCALES + [1.0])) for _ in range(dim)]
+
+
+def apply_boxscale(case, scale):
+    """multiplies the box of a case by `scale` (per dimension) and records it; integrands made by scaled_function see the
+    unscaled coordinates, so values and decisions are those of the unit-scale problem and integrals scale with the volume"""
+    if scale is not None:
+        case["a"] = [float(x) * s for x, s in zip(case["a"], scale)]
+        case["b"] = [float(x) * s for x, s in zip(case["b"], scale)]
+        case["boxscale"] = [float(s) for s in scale]
+    return case
+
+
+def unscaled_box(case):
+    s = case.get("boxscale")
+    if not s:
+        return list(case["a"]), list(case["b"])
+    return [x / t for x, t in zip(case["a"], s)], [x / t for x, t in zip(case["b"], s)]
+
+
+def scaled_function(g, case):
+    s = case.get("boxscale")
+    if not s:
+        return g
+    return lambda x: g([float(x[d]) / s[d] for d in range(len(s))])
+
+
+def box_volume(case):
+    v = 1.0
+    for x, y in zip(case["a"], case["b"]):
+        v *= abs(float(y) - float(x))
+    return v
+
+
+def scale_class(case):
+    s = case.get("boxscale")
+    if not s:
+        return "box-scale=unit"
+    v = box_volume(case) ** (1.0 / len(s))
+    return "box-scale:mean-width%s" % ("<1e-4" if v < 1e-4 else (">1e2" if v > 1e2 else "-moderate")) + ("" if len(set(s)) == 1 else "/anisotropic")
+
+
 def st_tape(draw, maxlen=48):
     mode = draw(st.sampled_from([0, 0, 0, 1, 1, 2, 2, 3, 4, 5, 5, 6, 7, 7, 7]))
     tape = draw(st.lists(st.integers(0, 63), min_size=1, max_size=maxlen))
@@ -103,7 +155,7 @@ def st_tape(draw, maxlen=48):
 
 @st.composite
 def st_dw_case(draw, tier="quick", versions=(6, 6, 6, 2, 3, 7, 8), maxdim=3, lmin_max=2, maxev_hi=None, margins=(0.9, 0.5, 1.0, 0.0),
-               safeties=(0.1, 0.0, 0.5)):
+               safeties=(0.1, 0.0, 0.5), scales=False):
     dim = draw(st.integers(1, maxdim))
     lmin = draw(st.integers(1, lmin_max))
     lmax = lmin + draw(st.integers(1, 2))
@@ -112,7 +164,7 @@ def st_dw_case(draw, tier="quick", versions=(6, 6, 6, 2, 3, 7, 8), maxdim=3, lmi
     hi = maxev_hi or {1: 120, 2: 500, 3: 350}[dim]
     if tier == "thorough":
         hi = int(hi * 1.6)
-    return dict(kind="dw", dim=dim, lmin=lmin, lmax=lmax, a=a, b=b,
+    c = dict(kind="dw", dim=dim, lmin=lmin, lmax=lmax, a=a, b=b,
                 version=draw(st.sampled_from(list(versions))),
                 rebalancing=draw(st.booleans()), boundary=draw(st.booleans()),
                 margin=draw(st.sampled_from(list(margins))), safety=draw(st.sampled_from(list(safeties))),
@@ -120,10 +172,11 @@ def st_dw_case(draw, tier="quick", versions=(6, 6, 6, 2, 3, 7, 8), maxdim=3, lmi
                 fseed=draw(st.integers(0, 10 ** 6)),
                 legs=draw(st.one_of(st.none(), st.none(), st.lists(st.sampled_from([1, 1, 5, 20, 60]), min_size=1, max_size=6))),
                 rerun=draw(st.one_of(st.none(), st.none(), st.none(), st.sampled_from([[1, 2], [1, 3], [2, 3], [2, 4]]))))
+    return apply_boxscale(c, st_boxscale(draw, dim) if scales else None)
 
 
 @st.composite
-def st_es_case(draw, tier="quick", versions=(0, 1, 2), boundary_choices=(True, True, True, False)):
+def st_es_case(draw, tier="quick", versions=(0, 1, 2), boundary_choices=(True, True, True, False), scales=False):
     dim = draw(st.integers(2, 3))
     lmax = draw(st.integers(2, 4 if dim == 2 else 3))
     a, b = st_box(draw, dim)
@@ -137,7 +190,7 @@ def st_es_case(draw, tier="quick", versions=(0, 1, 2), boundary_choices=(True, T
     # seen in the thorough tier). The properties do not quantify over boundary=False for extend-split, so the automatic
     # decision is generated with boundary points only.
     auto = draw(st.booleans()) and boundary
-    return dict(kind="es", dim=dim, lmin=1, lmax=lmax, a=a, b=b, version=draw(st.sampled_from(list(versions))),
+    c = dict(kind="es", dim=dim, lmin=1, lmax=lmax, a=a, b=b, version=draw(st.sampled_from(list(versions))),
                 nref=draw(st.integers(0, 3)), boundary=boundary,
                 auto=auto, ssd=draw(st.booleans()),
                 estimator=draw(st.sampled_from(["tape", "tape", "library"])),
@@ -145,6 +198,7 @@ def st_es_case(draw, tier="quick", versions=(0, 1, 2), boundary_choices=(True, T
                 fseed=draw(st.integers(0, 10 ** 6)),
                 legs=draw(st.one_of(st.none(), st.none(), st.lists(st.sampled_from([1, 1, 5, 20, 60]), min_size=1, max_size=6))),
                 rerun=draw(st.one_of(st.none(), st.none(), st.none(), st.sampled_from([[1, 2], [1, 3]]))))
+    return apply_boxscale(c, st_boxscale(draw, dim) if scales else None)
 
 
 # ------------------------------------------------------------------------------------------------------------
@@ -187,6 +241,34 @@ def driver_function(dim, fseed):
         fpl.set_box = lambda a, b: thr_abs.__setitem__(0, a[0] + (b[0] - a[0]) * thr)
         return fpl
     return f
+
+
+def singular_on_boundary(g, a, b, mode):
+    """g plus a term that is not finite on the boundary of the box [a,b] (mode 0: inf, 1: nan, 2: raises ZeroDivisionError)
+    and smooth inside: a legitimate integrand whenever boundary points are switched off (that is what the option is for)"""
+    a = [float(x) for x in a]
+    b = [float(x) for x in b]
+
+    def gs(x):
+        w = 0.0
+        for d in range(len(a)):
+            t = (float(x[d]) - a[d]) / (b[d] - a[d])
+            q = t * (1.0 - t)
+            if q <= 0.0:
+                if mode == 0:
+                    return float("inf")
+                if mode == 1:
+                    return float("nan")
+                return 1.0 / q if q != 0.0 else 1.0 / 0
+            w += 0.05 / math.sqrt(q)
+        return g(x) + w
+    return gs
+
+
+def case_function(case, offset=0, dim=None):
+    """the refinement-driving function of a case: driver_function in the unscaled coordinates of the case's box"""
+    a0, b0 = unscaled_box(case)
+    return scaled_function(fit_to_box(driver_function(dim or case["dim"], case["fseed"] + offset), a0, b0), case)
 
 
 def fit_to_box(g, a, b):
